@@ -75,8 +75,9 @@ def _rev(a):
 _ALL = sorted([(a, b) for a in LINK_IDS for b in LINK_IDS if a != b], key=lambda ab: (-_npaths(*ab), ab))
 _ADJ = [ab for ab in _ALL if ab[0].split("-")[1] == ab[1].split("-")[0] and ab[1] != _rev(ab[0])]
 _OPP = [ab for ab in _ALL if ab[1] == _rev(ab[0])]
+_SAME = [(a, a) for a in LINK_IDS[:1]]  # both positions on one link (the route leaves the link and comes back round the block)
 PAIRS = []
-for ab in _ALL[:5] + _ADJ[:2] + _OPP[:1] + _ALL[5:]:
+for ab in _ALL[:5] + _ADJ[:2] + _OPP[:1] + _SAME + _ALL[5:]:
     if ab not in PAIRS:
         PAIRS.append(ab)
 PAIRS = PAIRS[:16]
@@ -170,6 +171,16 @@ def h_fastest(l0: int, l1: int, l2: int, l3: int, k: int, w: int) -> bool:
     if len(route) < 2:
         return False
     inner = route[1:-1]
+    # "a fastest PATH": the inner part joins the end junction of the origin link to the start junction of the destination link
+    if _O_END == _D_START:
+        if len(inner) != 0:
+            return False
+    else:
+        if len(inner) == 0 or inner[0].start != CELL[_O_END] or inner[-1].end != CELL[_D_START]:
+            return False
+        for i in range(len(inner) - 1):
+            if inner[i].end != inner[i + 1].start:
+                return False
     t = 0.0
     for l in inner:
         t = t + l.distance_km / l.speed_kmph
